@@ -3,26 +3,26 @@
 import json
 props=[json.loads(l) for l in open('/verif/properties.jsonl')]
 T={
-"C01":("model-based stateful PBT (seeded proptest histories + bounded-exhaustive enumeration of short histories) against a reference dictionary, in dev and release","maphist","4/C01, 10"),
+"C01":("model-based stateful PBT (seeded proptest histories + bounded-exhaustive enumeration of short histories) against a reference dictionary, in dev and release; plus the wide (>255 entries) and slices (unsized keys cut from one buffer) engines","maphist+wide+slices","4/C01, 10"),
 "C02":("stateful PBT with a per-object ownership ledger (exactly-one-place / exactly-one-drop oracle), consuming iterators and drains cut, dropped, forgotten or driven through nth/last/fold/count/skip","maphist+sethist","4/C02, 10"),
 "C03":("stateful PBT + sweep of every insertion entry point on every reached full state; canary cage; ledger for the rejected pair; identical verdict required in dev and release","maphist+sethist","4/C03, 10"),
 "C04":("fault enumeration: every user-callback position (==, Clone, Drop, Default, predicates, closures, source next) of every generated and every enumerated short history panics once; ledger + well-formedness + continued model agreement of the survivors","maphist+sethist (fault mode)","4/C04, 10"),
 "C05":("stateful PBT with standing invariants after every op (no model), incl. ops ended by library panics; plus generated serde input streams with repeated keys","maphist+sethist+serdechk","4/C05, 10"),
-"C06":("stateful PBT under a counting global allocator (every non-panicking call, formatting under flag variants) + address-range oracle for every reference handed out; std feature off and on; fixed no_std link probe for the build clause","maphist+sethist+setalg","4/C06, 10"),
-"C07":("model-based stateful PBT + bounded-exhaustive enumeration against a reference set","sethist","4/C07, 10"),
-"C08":("PBT over pairs of history-built sets + exhaustive small-scope enumeration of arrangements; per-prefix size_hint / fold / nth / last / count / skip / identity oracle","setalg","4/C08, 10"),
-"C09":("stateful PBT: per-step exact-length, clone-continuation, order-stability, write-visibility and iterator-adaptor (nth/last/fold/count/skip) oracle for borrowing iterators","maphist+sethist","4/C09, 10"),
-"C10":("stateful PBT: consuming iterators and drains cut at every point, then dropped / run out / forgotten / driven through nth, last, fold, count, skip; multiset vs model; reuse after drain","maphist+sethist","4/C10, 10"),
+"C06":("stateful PBT under a counting global allocator (every non-panicking call, formatting under flag variants, 300-entry maps with 200-key get_disjoint_mut) + address-range and alignment oracle for every reference handed out; std feature off and on; fixed no_std link probe (dev and release profile) for the build clause","maphist+sethist+setalg+wide+slices","4/C06, 10"),
+"C07":("model-based stateful PBT + bounded-exhaustive enumeration against a reference set; plus sets of unsized slices","sethist+wide+slices","4/C07, 10"),
+"C08":("PBT over pairs of history-built sets + exhaustive small-scope enumeration of arrangements; per-prefix size_hint / fold / nth / last / count / skip / identity oracle; sets of unsized slices sharing start addresses","setalg+slices","4/C08, 10"),
+"C09":("stateful PBT: per-step exact-length, clone-continuation, order-stability, write-visibility and iterator-adaptor (nth/last/fold/count/skip) oracle for borrowing iterators; type-level probe that every iterator is Clone / ExactSizeIterator for arbitrary K, V","maphist+sethist+wide+apiprobe","4/C09, 10"),
+"C10":("stateful PBT: consuming iterators and drains cut at every point, then dropped / run out / forgotten / driven through nth, last, fold, count, skip; multiset vs model; reuse after drain; partially consumed iterators relocated in memory between steps; type-level probe","maphist+sethist+wide+apiprobe","4/C10, 10"),
 "C11":("model-based stateful PBT of entry chains (closure counting, key and value address oracle, whole-map comparison) + bounded-exhaustive enumeration","maphist","4/C11, 10"),
-"C12":("stateful PBT over equal-but-distinguishable keys (ledger-tracked and tagged plain data); stored-object identity model","maphist+sethist","4/C12, 10"),
-"C13":("stateful PBT + exhaustive request-tuple sweeps (J<=4) + long request arrays (32/33/64/65 keys); differential vs get_mut, alias/address oracle, alternate spellings of equal queries","maphist","4/C13, 10"),
-"C14":("metamorphic PBT over pairs (derived / edited right operand), == over map histories incl. large fill levels, exhaustive small scope; vs extensional equality","mapeq+setalg+maphist","4/C14, 10"),
-"C15":("stateful PBT with clone-call ledger / counter (tracked and no-drop-glue payloads), clone and clone_from, two-model independence oracle","maphist+sethist","4/C15, 10"),
+"C12":("stateful PBT over equal-but-distinguishable keys (ledger-tracked and tagged plain data); stored-object identity model; slices with equal contents at different addresses","maphist+sethist+slices","4/C12, 10"),
+"C13":("stateful PBT + exhaustive request-tuple sweeps (J<=4) + long request arrays (32/33/64/65 keys); differential vs get_mut, alias/address oracle, alternate spellings of equal queries, unsized keys that start at one address, 200 keys on a 300-entry map","maphist+wide+slices","4/C13, 10"),
+"C14":("metamorphic PBT over pairs (derived / edited right operand), == over map histories incl. large fill levels, exhaustive small scope; vs extensional equality; type-level probe (any two capacities, PartialEq only)","mapeq+setalg+maphist+wide+slices+apiprobe","4/C14, 10"),
+"C15":("stateful PBT with clone-call ledger / counter (tracked and no-drop-glue payloads), clone and clone_from, two-model independence oracle; type-level probe (Clone only)","maphist+sethist+wide+apiprobe","4/C15, 10"),
 "C16":("differential PBT: bulk construction vs one-by-one insertion vs model; counting, size-hinting, optionally non-fused source iterators","maphist+sethist","4/C16, 10"),
 "C17":("adversarial-Eq stateful PBT (scripted lying, non-transitive, time-varying ==/Borrow), memory-safety oracle only (ledger, canaries, aliasing, liveness of handed-out references)","maphist+sethist+setalg (liar mode)","4/C17, 10"),
-"C18":("differential lockstep PBT: unchecked paths vs safe paths within the documented contract, plus model, identity and ledger","maphist (lockstep)","4/C18, 10"),
-"C19":("PBT: renderings vs independently observed sequences (std debug builders over fresh payloads incl. formatter flags, hand renderer), iterator Debug at every cut","maphist+sethist+setalg","4/C19, 10"),
-"C20":("round-trip PBT: recording Serializer; serde value deserializers, own token-stream format with exact / absent size hints, deserialize_in_place, bincode; dev and release","serdechk","4/C20, 10"),
+"C18":("differential lockstep PBT: unchecked paths vs safe paths within the documented contract, plus model, identity and ledger; a quarter of the tracked cases drive insert_unchecked on non-full maps under a misbehaving == (memory-safety oracle only)","maphist (lockstep, unchecked-liar)","4/C18, 10"),
+"C19":("PBT: renderings vs independently observed sequences (std debug builders over fresh payloads incl. formatter flags, hand renderer), iterator Debug at every cut; Display under the alternate flag; no element destroyed or created by formatting (ledger); type-level probe","maphist+sethist+setalg+slices+apiprobe","4/C19, 10"),
+"C20":("round-trip PBT: recording Serializer; serde value deserializers, own token-stream format with exact / absent size hints, deserialize_in_place, bincode; dev and release; type-level probe (borrowed contents: Deserialize<'de> for &str / &[u8])","serdechk+apiprobe","4/C20, 10"),
 }
 checks=[]
 for p in props:
@@ -32,7 +32,7 @@ for p in props:
           "exploration":"Generated-input search (seeded proptest + corpus replay, bounded-exhaustive enumeration where stated in the evidence) against an explicit oracle after every step; finds violations, does not prove absence."}[cat]
     checks.append({"property_id":i,"quick_cmd":f"./check {i} quick","thorough_cmd":f"./check {i} thorough","evidence_file":f"evidence/{i}.json","replay_cmd_template":f"./check {i} --replay {{path}}","engine":eng,
       "level_claimed":{"category":cat,"text":text,"design_ref":f"DESIGN.md section {ref}"},
-      "level_note":"Trusted: the harness's reference model, ledger-instrumented payload types, byte decoders and iterator probes (validated against deliberately broken trees: /verif/mutants and the 80 independently seeded changes in /verif/seeded, see DESIGN.md section 10). Bounds: capacities {0,1,2,3,4,6,9,17,32,33,64,70} (pairs {0,1,2,3,5}), histories <= 40 ops (96 thorough), request arrays <= 5 or 32/33/64/65 keys. micromap's generic code is compiled unoptimised inside the harness crates, with debug assertions and overflow checks on (dev run) and off (release run); optimised + AddressSanitizer and Miri only in the thorough tier.",
+      "level_note":"Trusted: the harness's reference model, ledger-instrumented payload types, byte decoders and iterator probes (validated against deliberately broken trees: /verif/mutants and the 164 independently seeded changes in /verif/seeded, see DESIGN.md section 10). Bounds: capacities {0,1,2,3,4,6,9,17,32,33,64,70} (pairs {0,1,2,3,5}), histories <= 40 ops (96 thorough), request arrays <= 5 or 32/33/64/65 keys; Map<u16,u32,300> with 200-key requests; long histories of 400 ops on capacities <= 5. micromap's generic code is compiled unoptimised inside the harness crates, with debug assertions and overflow checks on (dev run) and off (release run); optimised + AddressSanitizer and Miri only in the thorough tier.",
       "technique":t})
 m={"version":1,"setup_cmd":"./setup.sh",
 "hooks":{"guard":"micromap_verif","enable":"no source hooks are needed (all observation points are public API, payload trait impls, the global allocator and addresses); the cfg name is reserved","baseline_off_cmd":"cd /repo && cargo test --workspace --no-fail-fast --offline","source_commits":[],"add_only":True},
@@ -40,6 +40,9 @@ m={"version":1,"setup_cmd":"./setup.sh",
  {"name":"maphist","path":"harness/maphist","serves_properties":["C01","C02","C03","C04","C05","C06","C09","C10","C11","C12","C13","C14","C15","C16","C17","C18","C19"],"kind_free_text":"Map history interpreter vs reference dictionary, ledger, canaries, allocator, fuse, liar"},
  {"name":"sethist","path":"harness/sethist","serves_properties":["C02","C03","C04","C05","C06","C07","C09","C10","C12","C15","C16","C17","C19"],"kind_free_text":"Set history interpreter vs reference set"},
  {"name":"setalg","path":"harness/pairs/src/setalg.rs","serves_properties":["C06","C08","C14","C17","C19"],"kind_free_text":"pairs of sets, algebra iterators stepped and probed (nth/last/fold/count/skip) at every prefix"},
+ {"name":"wide","path":"harness/maphist/src/wide.rs","serves_properties":["C01","C05","C06","C07","C09","C10","C13","C14","C15"],"kind_free_text":"Map<u16,u32,300> / Set<u16,300> filled past 255 entries, model-based"},
+ {"name":"slices","path":"harness/maphist/src/slices.rs","serves_properties":["C01","C05","C06","C07","C08","C12","C13","C14","C19"],"kind_free_text":"maps and sets keyed by &str / &[u8] sub-slices of one buffer (equal contents at different addresses, different keys at one address), model-based"},
+ {"name":"apiprobe","path":"apiprobe","serves_properties":["C09","C10","C14","C15","C19","C20"],"kind_free_text":"type-level probe (cargo check only): the generic instantiations the statements quantify over exist"},
  {"name":"mapeq","path":"harness/pairs/src/mapeq.rs","serves_properties":["C14"],"kind_free_text":"pairs of maps, extensional equality"},
  {"name":"serdechk","path":"harness-serde","serves_properties":["C20","C05"],"kind_free_text":"micromap with feature serde: round trips (C20) and standing invariants over deserialized streams with repeated keys (C05)"},
  {"name":"runner","path":"harness/runner","serves_properties":[p['id'] for p in props if p['id']!='C20'],"kind_free_text":"drivers: corpus replay, proptest, enumeration, fault enumeration; evidence writer"}],
